@@ -428,8 +428,9 @@ def coalesce_copies(fn) -> int:
                         tmp, dest = a, t
                         occ = [n for n in own if isinstance(n, ast.Name) and n.id == tmp]
                         stores = [n for n in occ if isinstance(n.ctx, ast.Store)]
-                        if len(stores) == 1:
-                            k0 = next((k for k in range(i) if any(n is stores[0] for n in ast.walk(blk[k]))), None)
+                        if stores:
+                            occ_ids = {id(n) for n in occ}
+                            k0 = next((k for k in range(i) if any(id(n) in occ_ids for n in ast.walk(blk[k]))), None)
                             span = {id(n) for k in range(k0 if k0 is not None else i, i + 1) for n in ast.walk(blk[k])}
                             if k0 is not None and isinstance(blk[k0], ast.Assign) and all(id(n) in span for n in occ) and not any(
                                     isinstance(n, ast.Name) and n.id == dest and (k > k0 or isinstance(n.ctx, (ast.Store, ast.Del))) for k in range(k0, i) for n in ast.walk(blk[k])) \
@@ -630,6 +631,40 @@ def forward_single_use_temps(fn) -> int:
             for child in ast.iter_child_nodes(node):
                 child._parent = node
     return n_done
+
+
+def restore_temp_names(fn) -> int:
+    """`x__i3` -> `x` when the function has no other use for the name x (alpha-renaming to an unused name): an extracted helper's
+    locals get back the names they had before the extraction."""
+    names = {}
+    plain = set()
+    for n in ast.walk(fn):
+        if isinstance(n, ast.Name):
+            (names.setdefault(n.id, []) if _is_temp(n.id) else plain.add(n.id))
+            if _is_temp(n.id):
+                names[n.id].append(n)
+        elif isinstance(n, ast.arg):
+            plain.add(n.arg)
+        elif isinstance(n, (ast.FunctionDef, ast.ClassDef, ast.AsyncFunctionDef)) and n is not fn:
+            plain.add(n.name)
+        elif isinstance(n, (ast.Global, ast.Nonlocal)):
+            plain.update(n.names)
+        elif isinstance(n, ast.ExceptHandler) and n.name:
+            plain.add(n.name)
+        elif isinstance(n, ast.alias):
+            plain.add((n.asname or n.name).split(".")[0])
+    by_base = {}
+    for t in names:
+        by_base.setdefault(re.sub(r"__[ig]\d+$", "", t), []).append(t)
+    done = 0
+    import builtins
+    for base, ts in by_base.items():
+        if len(ts) == 1 and base not in plain and base.isidentifier() and not hasattr(builtins, base):
+            # nested scopes that use the temporary keep working: they see the renamed cell
+            for n in names[ts[0]]:
+                n.id = base
+            done += 1
+    return done
 
 
 def _literal(v):
@@ -926,6 +961,7 @@ def run(prog) -> int:
                     changed += 1 + substitute_function(node)
                 if fuse_comprehension_loops(node):
                     changed += 1 + substitute_function(node)
+                changed += restore_temp_names(node)
         total += changed
         if changed:
             relink(m)
